@@ -352,6 +352,46 @@ func verifC16(c *drv.Ctx) {
 			}
 		}
 	}
+	// a scan whose request generator fails when it is started (a descending port range that option
+	// parsing lets through, a target file that cannot be opened): the error is reported and the
+	// command still comes to its end, after the exit delay at the latest
+	for _, cmd := range c01cmds {
+		for vi, variant := range [][]string{{"-p", "100-50", "10.0.1.1/32"}, {"-p", "80", "-f", "{DIR}/does-not-exist.jsonl"}, {"-f", "{DIR}/does-not-exist.jsonl"}} {
+			if !cmd.ports && vi < 2 || !cmd.file && vi >= 1 {
+				continue
+			}
+			idx++
+			if !c.Mine(idx) || c.Expired() {
+				continue
+			}
+			args := append(append([]string{}, cmd.args...), variant...)
+			sc := &vE2ESpec{Args: append(args, "--json", "--exit-delay", "300ms"), Horizon: 5000000, Positive: func(string, uint16) bool { return true }}
+			if cmd.kind != "arp" && cmd.kind != "app" {
+				sc.Stdin = vGatewayCache
+			}
+			run, x := vE2EOnce(sc)
+			c.Eval(1)
+			c.Nontrivial(1)
+			c.R.Transitions += int64(x.Steps)
+			name := fmt.Sprintf("%s %s", cmd.name, strings.Join(variant, " "))
+			key := fmt.Sprintf("exitdelay:generator-fails:%s:%d", cmd.name, vi)
+			rep := map[string]any{"part": "c16", "args": sc.Args}
+			switch {
+			case len(x.Crashes) > 0:
+				c.Fail(key+":crash", fmt.Sprintf("%s: crash: %s", name, x.Crashes[0].Value), rep)
+			case x.Deadlock || x.Livelock || !run.Ret:
+				c.Fail(key+":hang", fmt.Sprintf("%s: nothing can be scanned (the request generator fails at once), yet the command never returns (parked: %v)", name, x.Blocked), rep)
+			case run.RetT > int64(300*time.Millisecond):
+				c.Fail(key+":late", fmt.Sprintf("%s: the command returned at %v, later than the exit delay of 300ms although nothing was sent", name, time.Duration(run.RetT)), rep)
+			case len(run.Frames)+len(run.Probes) > 0:
+				c.Fail(key+":sent", fmt.Sprintf("%s: %d probes although the target specification cannot be read", name, len(run.Frames)+len(run.Probes)), rep)
+			case run.Err == "" && len(run.vErrRecords()) == 0:
+				c.Fail(key+":silent", fmt.Sprintf("%s: neither an error status nor an error record", name), rep)
+			default:
+				c.Outcome(fmt.Sprintf("generator-fails/%s/%d/ret=%v", cmd.kind, vi, time.Duration(run.RetT)))
+			}
+		}
+	}
 	// schedules
 	type exp struct {
 		k     c16case
